@@ -90,6 +90,19 @@ pub mod write_trait {
                     && Self::wr_step(*old(self), *old(w), *final(self), *final(w))
                     && final(self).wr_sink(*final(w)) == old(self).wr_sink(*old(w));
 
+        /// poll_close (futures) / poll_shutdown (tokio): closes the writer; afterwards only the
+        /// frame on the file system is promised
+        // @FLAVOUR !tokio
+        fn poll_close(&mut self, cx: &mut crate::shims::std::task::Context<'_>, Tracked(w): Tracked<&mut World>) -> (r: crate::shims::std::task::Poll<io::Result<()>>)
+            requires old(self).wr_inv(*old(w)),
+            ensures Self::wr_frame(*old(self), *old(w), *final(w));
+        // @ENDFLAVOUR
+        // @FLAVOUR tokio
+        fn poll_shutdown(&mut self, cx: &mut crate::shims::std::task::Context<'_>, Tracked(w): Tracked<&mut World>) -> (r: crate::shims::std::task::Poll<io::Result<()>>)
+            requires old(self).wr_inv(*old(w)),
+            ensures Self::wr_frame(*old(self), *old(w), *final(w));
+        // @ENDFLAVOUR
+
         #[verifier::external_body]
         fn write_all(&mut self, buf: &[u8], Tracked(w): Tracked<&mut World>) -> (r: io::Result<()>)
             requires old(self).wr_inv(*old(w)),
